@@ -3724,6 +3724,7 @@ size_t ZSTDv06_decompressContinue(ZSTDv06_DCtx* dctx, void* dst, size_t dstCapac
             {
             case bt_compressed:
                 rSize = ZSTDv06_decompressBlock_internal(dctx, dst, dstCapacity, src, srcSize);
+                if (!ZSTDv06_isError(rSize) && rSize > ZSTDv06_BLOCKSIZE_MAX) return ERROR(corruption_detected);   /* as the single-call decoder */
                 break;
             case bt_raw :
                 rSize = ZSTDv06_copyRawBlock(dst, dstCapacity, src, srcSize);
